@@ -710,7 +710,7 @@ def r15(ctx):
     variant's name. The header and the object bytes otherwise disagree silently whenever two variations have the same size."""
     prog = ctx.prog
     rx = re.compile(r"(?:^|::)Group(\d+)Var(\d+)$")
-    n = m = 0
+    n = m = k = 0
     for bd in prog.bodies.values():
         if "::tests::" in bd.path or "::test::" in bd.path:
             continue
@@ -730,6 +730,18 @@ def r15(ctx):
                 mm = rx.search(str(g.name))
                 n += 1
                 ctx.check((int(mm.group(1)), int(mm.group(2))) == gv, "variation-namesake@%s:%s" % (short(bd.path), g.name), "the %s arm is instantiated with Group%dVar%d" % (g.name, gv[0], gv[1]), bd.where(b.idx), bad_detail="the %s arm calls %s instantiated with Group%dVar%d: the header announces one variation and the object bytes are another's" % (g.name, short(b.term.callee or ""), gv[0], gv[1]))
+        # ... and an enum value named Group<g>Var<v> built inside such an arm (READ header -> static variation) is the arm's namesake
+        if re.search(r"outstation::database::read::ReadHeader::", bd.path):
+            for b, si, st in bd.assigns():
+                rv = st.rv
+                if rv["k"] != "agg" or rv.get("ak") != "enum" or not rx.search(str(rv.get("var"))):
+                    continue
+                arms = [g for g in ctx.guards_at(bd, b.idx) if g.kind == "is" and rx.search(str(g.name)) and g.edge]
+                if not arms:
+                    continue
+                g = min(arms, key=lambda g: len(bd.region_of_edge(g.edge)))
+                k += 1
+                ctx.check(str(g.name) == rv["var"], "variation-namesake@%s:%s" % (short(bd.path), g.name), "the %s arm selects %s::%s" % (g.name, rv["adt"].split("::")[-1], rv["var"]), bd.where(b.idx), bad_detail="a READ of %s is mapped to %s::%s: the objects reported are of another variation than the one requested" % (g.name, rv["adt"].split("::")[-1], rv["var"]))
         if bd.path.endswith("::get_group_var"):
             sym = ctx.sym(bd)
             for b, si, st, e in ret_sites(bd, sym):
@@ -741,7 +753,7 @@ def r15(ctx):
                 got = (const_value(prog, e[1][0]), const_value(prog, e[1][1]))
                 m += 1
                 ctx.check(got == (int(mm.group(1)), int(mm.group(2))), "group-var@%s:%s" % (short(bd.path), g.name), "%s reports %s" % (g.name, got), bd.where(b.idx), bad_detail="get_group_var reports %s for %s" % (got, g.name))
-    if n < 300 or m < 30:  # counted on the reviewed tree: 343 / 32
+    if n < 300 or m < 30 or k < 100:  # counted on the reviewed tree: 343 / 32 / READ header arms
         raise AnchorError("variation namesake sites: %d instantiations, %d get_group_var arms" % (n, m))
 
 
